@@ -420,49 +420,33 @@ Section Eval.
     Definition inst_in (i : invar) : invar :=
       match i with InVar v => if var_eqb v cst then InTree ref else i | _ => i end.
 
-    (* formula.substitute_expressions({cst: ref}).  The second component records that a universal
-       quantifier was DROPPED because its bound variable does not occur in the instantiated body
-       (ForallFormula.substitute_expressions) — unsound on an empty domain, class K_vacuous_forall.
+    (* formula.substitute_expressions({cst: ref}).  As of /repo commit 0230f8f (fix of the former
+       finding K_vacuous_forall) ForallFormula.substitute_expressions KEEPS a universal quantifier
+       whose body does not mention the bound variable; before, it returned the body.
        Not modelled: the `&` / `|` smart constructors used to rebuild conjunctions/disjunctions
        (idempotence, true/false units, a & not a): they re-nest n-ary connectives to binary ones and
        do not change verdicts on closed trees. *)
-    Fixpoint inst_const (f : formula A) : res (formula A * bool) :=
+    Fixpoint inst_const (f : formula A) : res (formula A) :=
       match f with
-      | FSmt x => match ainst cst ref x with Ok y => Ok (FSmt y, false) | Raise e => Raise e end
-      | FSPred n args => Ok (FSPred n (map inst_arg args), false)
-      | FSemPred n args => Ok (FSemPred n (map inst_arg args), false)
-      | FNot g => match inst_const g with Ok (g', d) => Ok (FNot g', d) | Raise e => Raise e end
-      | FAnd fs => match mapM inst_const fs with
-                   | Ok l => Ok (FAnd (map fst l), existsb snd l) | Raise e => Raise e end
-      | FOr fs => match mapM inst_const fs with
-                  | Ok l => Ok (FOr (map fst l), existsb snd l) | Raise e => Raise e end
+      | FSmt x => match ainst cst ref x with Ok y => Ok (FSmt y) | Raise e => Raise e end
+      | FSPred n args => Ok (FSPred n (map inst_arg args))
+      | FSemPred n args => Ok (FSemPred n (map inst_arg args))
+      | FNot g => match inst_const g with Ok g' => Ok (FNot g') | Raise e => Raise e end
+      | FAnd fs => match mapM inst_const fs with Ok l => Ok (FAnd l) | Raise e => Raise e end
+      | FOr fs => match mapM inst_const fs with Ok l => Ok (FOr l) | Raise e => Raise e end
       | FForall v i m b =>
-          match inst_const b with
-          | Raise e => Raise e
-          | Ok (b', d) =>
-              if is_nil (match m with Some _ => [tt] | None => [] end)
-                 && negb (existsb (var_eqb v) (fvars b'))
-              then Ok (b', true)
-              else Ok (FForall v (inst_in i) m b', d)
-          end
+          match inst_const b with Ok b' => Ok (FForall v (inst_in i) m b') | Raise e => Raise e end
       | FExists v i m b =>
-          match inst_const b with
-          | Raise e => Raise e
-          | Ok (b', d) => Ok (FExists v (inst_in i) m b', d)
-          end
-      | FForallInt v b => match inst_const b with Ok (b', d) => Ok (FForallInt v b', d) | Raise e => Raise e end
-      | FExistsInt v b => match inst_const b with Ok (b', d) => Ok (FExistsInt v b', d) | Raise e => Raise e end
+          match inst_const b with Ok b' => Ok (FExists v (inst_in i) m b') | Raise e => Raise e end
+      | FForallInt v b => match inst_const b with Ok b' => Ok (FForallInt v b') | Raise e => Raise e end
+      | FExistsInt v b => match inst_const b with Ok b' => Ok (FExistsInt v b') | Raise e => Raise e end
       end.
-
-    (* known-finding class: instantiation dropped a universal quantifier *)
-    Definition K_vacuous_forall (f : formula A) : bool :=
-      match inst_const f with Ok (_, d) => d | Raise _ => false end.
 
     (* evaluate(formula, reference_tree, grammar) without assumptions *)
     Definition evaluate (f : formula A) : res TV :=
-      match (if existsb (var_eqb cst) (fvars f) then inst_const f else Ok (f, false)) with
+      match (if existsb (var_eqb cst) (fvars f) then inst_const f else Ok f) with
       | Raise e => Raise e
-      | Ok (f', _) => if has_numq f' then strategy2 ref f' else eval_legacy f' []
+      | Ok f' => if has_numq f' then strategy2 ref f' else eval_legacy f' []
       end.
 
     (* ISLaSolver.check(tree): UNKNOWN raises UnknownResultError *)
